@@ -132,6 +132,9 @@ func createProcess(p *Process, isMethod bool) {
 
 	p.IsMethod = isMethod
 
+	// <!out> and <err> refer to this process's own streams as wired by compile()
+	stdout, stderr := p.Stdout, p.Stderr
+
 	// We do stderr first so we can log errors in the stdout pipe to stderr
 	switch p.NamedPipeErr {
 	case "":
@@ -139,7 +142,7 @@ func createProcess(p *Process, isMethod bool) {
 	case "err":
 		//p.Stderr.Writeln([]byte("Invalid usage of named pipes: stderr defaults to <err>."))
 	case "out":
-		p.Stderr = p.Next.Stdin
+		p.Stderr = stdout
 	default:
 		pipe, err := GlobalPipes.Get(p.NamedPipeErr)
 		if err == nil {
@@ -155,7 +158,7 @@ func createProcess(p *Process, isMethod bool) {
 		p.NamedPipeOut = "out"
 	case "err":
 		p.Stdout.SetDataType(types.Generic)
-		p.Stdout = p.Next.Stderr
+		p.Stdout = stderr
 	case "out":
 		//p.Stderr.Writeln([]byte("Invalid usage of named pipes: stdout defaults to <out>."))
 	default:
